@@ -5,6 +5,12 @@
 
 #![allow(dead_code)]
 mod bookcheck;
+mod c09;
+mod c16;
+mod c17;
+mod c20;
+#[allow(clippy::all)]
+mod shapes_gen;
 mod checks_book;
 mod checks_env;
 mod checks_mixed;
@@ -40,6 +46,9 @@ fn main() {
         .and_then(|s| s.parse().ok())
         .or_else(|| std::env::var("VERIF_SEED").ok().and_then(|s| s.parse().ok()))
         .unwrap_or(1);
+    if cmd == "c09-child" {
+        std::process::exit(c09::child(&args[2], args[3] == "1", args[4].parse().unwrap_or(0)));
+    }
     if cmd == "c07-trunc" {
         std::process::exit(checks_mixed::c07_trunc_child(tier, seed, &args[4]));
     }
@@ -60,6 +69,10 @@ fn main() {
         "c13" => checks_mixed::c13(&ctx),
         "c14" => checks_mixed::c14(&ctx),
         "c15" => checks_mixed::c15(&ctx),
+        "c09" => c09::c09(&ctx),
+        "c16" => c16::c16(&ctx),
+        "c17" => c17::c17(&ctx),
+        "c20" => c20::c20(&ctx),
         other => {
             eprintln!("unknown check {}", other);
             2
@@ -104,6 +117,10 @@ fn replay(path: &str) -> i32 {
         }
         Some("env_session") => checks_env::replay_env(&doc),
         Some("market_session") => checks_mixed::replay_market(&doc),
+        Some("c20") => c20::replay_c20(&doc),
+        Some("c16") => c16::replay_c16(&doc),
+        Some("c09") => c09::replay_c09(&doc),
+        Some("c17") => c17::replay_c17(&doc),
         other => {
             eprintln!("unknown replay kind {:?}", other);
             2
